@@ -4,6 +4,7 @@
 //!   cvh replay <file>
 
 mod crash;
+mod fault;
 mod keys;
 mod model;
 mod ondisk;
@@ -89,6 +90,7 @@ fn main() {
             let res = match engine {
                 "seq" => seq::run(&a.tier, a.slice, a.seed),
                 "crash" => crash::run(&a.tier, a.slice, a.seed),
+                "fault" => fault::run(&a.tier, a.slice, a.seed),
                 _ => {
                     eprintln!("unknown engine {engine}");
                     std::process::exit(2);
@@ -107,6 +109,7 @@ pub fn replay(case: &Value) -> Vec<report::Violation> {
     match case["engine"].as_str().unwrap_or("") {
         "seq" => seq::replay(case),
         "crash" => crash::replay(case),
+        "fault" => fault::replay(case),
         e => {
             eprintln!("cannot replay engine {e:?}");
             std::process::exit(2);
